@@ -73,6 +73,8 @@ class Oracle(_REAL_RANDOM_CLASS):
         if xp is not None and xp.active:
             xp.events.append(('seed', a if isinstance(a, (int, str, type(None), float)) else repr(a),
                               len(xp.trace)))
+            if xp.streams:
+                xp._cursor['G'] = [repr(a), 0] if a is not None else None
         else:
             super().seed(0)
 
@@ -86,9 +88,12 @@ class Oracle(_REAL_RANDOM_CLASS):
         elif not xp.events or xp.events[-1][0] != 'gdraw':
             xp.events.append(('gdraw', len(xp.trace)))
 
+    def _gid(self):
+        return id(self) if getattr(self, '_private', False) else 'G'
+
     def random(self):
         self._note()
-        return self.FLOATS[self._xp.choose(2, 'random')]
+        return self.FLOATS[self._xp.choose(2, 'random', self._gid())]
 
     def getrandbits(self, k):
         if k < 0:
@@ -96,13 +101,13 @@ class Oracle(_REAL_RANDOM_CLASS):
         if k > 5:
             raise Unsupported('getrandbits(%d) is outside the explorer alphabet' % k)
         self._note()
-        return self._xp.choose(1 << k, 'bits')
+        return self._xp.choose(1 << k, 'bits', self._gid())
 
     def _randbelow(self, n):
         if n <= 0:
             raise ValueError('empty range')
         self._note()
-        return self._xp.choose(n, 'below')
+        return self._xp.choose(n, 'below', self._gid())
 
     def getstate(self):
         return ('oracle',)
@@ -129,12 +134,16 @@ class PrivateOracle(Oracle):
         _REAL_RANDOM_CLASS.__init__(self, 0)
         xp.events.append(('new', x if isinstance(x, (int, str, type(None), float)) else repr(x),
                           len(xp.trace)))
+        if xp.streams:
+            xp._cursor[id(self)] = [repr(x), 0] if x is not None else None
 
     def seed(self, a=None, version=2):
         xp = getattr(self, '_xp', None)
         if xp is not None and xp.active:
             xp.events.append(('pseed', a if isinstance(a, (int, str, type(None), float))
                               else repr(a), len(xp.trace)))
+            if xp.streams:
+                xp._cursor[id(self)] = [repr(a), 0] if a is not None else None
 
 
 # ---------------------------------------------------------------------------
@@ -295,7 +304,21 @@ def _monitor(code):
 class Explorer:
     def __init__(self, body, hashing=True, horizon=200, max_dev=None,
                  max_execs=None, on_result=None, stop_frame_code=None,
-                 default='zero', default_seed=0, private=False, on_partial=None):
+                 default='zero', default_seed=0, private=False, on_partial=None,
+                 streams=False):
+        # streams=True models a seeded pseudo-random generator: after seed(a)
+        # (or random.Random(a)) the answers are an arbitrary but FIXED function
+        # of (a, position) -- chosen by the explorer the first time a position
+        # is asked for, replayed (no new choice point) whenever the same seed is
+        # set again in the same execution.  "Same seed, same result" can then be
+        # checked under every possible stream.  Not combined with hashing (the
+        # streams are state the frames do not show).
+        if streams and hashing:
+            raise ValueError('streams=True needs hashing=False')
+        self.streams = streams
+        self._streams = {}
+        self._cursor = {}
+        self.replayed_draws = 0
         self.private = private
         self.on_partial = on_partial
         self.private_draws = 0
@@ -355,7 +378,23 @@ class Explorer:
         return x % n
 
     # ---- choice points ------------------------------------------------------
-    def choose(self, n, kind):
+    def choose(self, n, kind, gid='G'):
+        cur = self._cursor.get(gid) if self.streams else None
+        if cur is not None:
+            st = self._streams.setdefault(cur[0], [])
+            if cur[1] < len(st) and st[cur[1]][0] == n:
+                c = st[cur[1]][1]
+                cur[1] += 1
+                self.replayed_draws += 1
+                return c
+        c = self._choose(n, kind)
+        if cur is not None:
+            del st[cur[1]:]
+            st.append((n, c))
+            cur[1] += 1
+        return c
+
+    def _choose(self, n, kind):
         i = len(self.trace)
         chain = self._note_point() if self.hashing else None
         if i < len(self.prefix):
@@ -386,7 +425,7 @@ class Explorer:
         entered; `_run` over-approximates "since the statement began" (it never
         starts later than the statement), which is sound for state merging."""
         i = len(self.trace)
-        f = sys._getframe(2)
+        f = sys._getframe(3)
         stop = self._stop_code
         chain = []
         run, first, prev = self._run, self._first, self._prev
@@ -504,6 +543,8 @@ class Explorer:
         self.trace = []
         self.arity = []
         self.events = []
+        self._streams = {}
+        self._cursor = {}
         global _CURRENT
         self._run = {}
         self._first = {}
